@@ -1319,6 +1319,44 @@ class Interp:
             return t[1]
         raise Unanalysable("seq_len %r" % (t,))
 
+    def cast_to_width(self, st, x, w, s=False):
+        """truncating / extending integer cast to an unsigned (or signed) type of width w"""
+        tr = ty_range(w, s)
+        if x.lin is not None and st.lin_range(x.lin).subset_of(tr):
+            return VInt(w, s, lin=x.lin)
+        cells = bv_of(st, x)
+        out = cells[x.w - w:] if w <= x.w else ((cells[0] if x.s else 0),) * (w - x.w) + cells
+        v = VInt(w, s, bv=tuple(out))
+        return VInt(w, s, lin=bv_to_lin(st, v))
+
+    def int_to_int(self, st, x, w, s):
+        """integer-to-integer `as` cast of x to width w / signedness s"""
+        tr = ty_range(w, s)
+        if x.lin is not None:
+            r = st.lin_range(x.lin)
+            if r.subset_of(tr):
+                return VInt(w, s, lin=x.lin)
+            # reinterpretation between same-width signed/unsigned or narrowing: split on sign
+            sa = x.lin.single_atom()
+            if sa and sa[1] == 1 and sa[2] == 0 and w == x.w and s and not x.s:
+                a = sa[0]
+                half = 1 << (w - 1)
+                cur = st.aset(a)
+                lo_part = cur.intersect(IntSet.range(0, half - 1))
+                hi_part = cur.intersect(IntSet.range(half, (1 << w) - 1))
+                if lo_part and hi_part:
+                    raise NeedSplit(a, [lo_part, hi_part])
+                if hi_part:
+                    return VInt(w, s, lin=x.lin - (1 << w))
+        cells = bv_of(st, x)
+        if w <= x.w:
+            out = cells[x.w - w:]
+        else:
+            fill = cells[0] if x.s else 0
+            out = (fill,) * (w - x.w) + cells
+        v = VInt(w, s, bv=tuple(out))
+        return VInt(w, s, lin=bv_to_lin(st, v)) if True else v
+
     def cast(self, st, kind, x, tix):
         t = self.f.types[tix]
         if kind in ("IntToInt", "IntToFloat") and isinstance(x, VApp):
@@ -1338,31 +1376,7 @@ class Interp:
                     return VOpaque("cast(%s)" % x.tag, tix)
                 raise Unanalysable("IntToInt of %r" % (x,))
             w, s = (32, False) if t["k"] == "char" else (t["w"], t["s"])
-            tr = ty_range(w, s)
-            if x.lin is not None:
-                r = st.lin_range(x.lin)
-                if r.subset_of(tr):
-                    return VInt(w, s, lin=x.lin)
-                # reinterpretation between same-width signed/unsigned or narrowing: split on sign
-                sa = x.lin.single_atom()
-                if sa and sa[1] == 1 and sa[2] == 0 and w == x.w and s and not x.s:
-                    a = sa[0]
-                    half = 1 << (w - 1)
-                    cur = st.aset(a)
-                    lo_part = cur.intersect(IntSet.range(0, half - 1))
-                    hi_part = cur.intersect(IntSet.range(half, (1 << w) - 1))
-                    if lo_part and hi_part:
-                        raise NeedSplit(a, [lo_part, hi_part])
-                    if hi_part:
-                        return VInt(w, s, lin=x.lin - (1 << w))
-            cells = bv_of(st, x)
-            if w <= x.w:
-                out = cells[x.w - w:]
-            else:
-                fill = cells[0] if x.s else 0
-                out = (fill,) * (w - x.w) + cells
-            v = VInt(w, s, bv=tuple(out))
-            return VInt(w, s, lin=bv_to_lin(st, v)) if True else v
+            return self.int_to_int(st, x, w, s)
         if kind == "IntToFloat":
             if isinstance(x, VInt):
                 return VFloat(("i2f", lin_of(st, x).key(), x.w, x.s))
@@ -2294,10 +2308,8 @@ class Interp:
         if n.is_const() and pos.is_const():
             if pos.c < n.c:
                 cell = self.new_cell(st, VInt(8, False, lin=Lin.atom(("byte", sl.buf, (sl.start + pos.c).key()))))
-                self.write_loc(st, r.cell, r.path, type(it)(sl, Lin.const(pos.c + 1)))
-                item = VRef(cell, ())
-                if isinstance(it, VIterEnum):
-                    item = VTuple((mk_const(pos.c, 64, False), item))
+                self.write_loc(st, r.cell, r.path, it.at(Lin.const(pos.c + 1)))
+                item = it.item(Lin.const(pos.c), VRef(cell, ()))
                 return [(st, mk_some(item))]
             return [(st, NONE)]
         if not (pos.is_const() and pos.c == 0):
@@ -2316,10 +2328,8 @@ class Interp:
         if xs:
             stA = xs[0]
             cellA = self.new_cell(stA, VInt(8, False, lin=Lin.atom(("byte", sl.buf, sl.start.key()))))
-            self.write_loc(stA, r.cell, r.path, type(it)(sl, Lin.const(1)))
-            itemA = VRef(cellA, ())
-            if isinstance(it, VIterEnum):
-                itemA = VTuple((mk_const(0, 64, False), itemA))
+            self.write_loc(stA, r.cell, r.path, it.at(Lin.const(1)))
+            itemA = it.item(Lin.const(0), VRef(cellA, ()))
             self.write_place(stA, frame, dest, mk_some(itemA))
             saved = (self.obl, self.unknown_ext, self.leaf_calls)
             self.obl, self.unknown_ext, self.leaf_calls = {}, {}, {}
@@ -2380,10 +2390,8 @@ class Interp:
                     old = st.store[c]
                     stG.store[c] = VInt(old.w, old.s, lin=Lin.atom(acc_atom))
                 cellG = self.new_cell(stG, VInt(8, False, lin=Lin.atom(("byte", sl.buf, (sl.start + Lin.atom(kk)).key()))))
-                self.write_loc(stG, r.cell, r.path, type(it)(sl, Lin.atom(kk) + 1))
-                itemG = VRef(cellG, ())
-                if isinstance(it, VIterEnum):
-                    itemG = VTuple((VInt(64, False, lin=Lin.atom(kk)), itemG))
+                self.write_loc(stG, r.cell, r.path, it.at(Lin.atom(kk) + 1))
+                itemG = it.item(Lin.atom(kk), VRef(cellG, ()))
                 self.write_place(stG, frame, dest, mk_some(itemG))
                 stG.event("loop_iter", lid)
                 backsG, retsG = self.run_region(stG, body, frame, tgt, hdr)
@@ -2451,7 +2459,7 @@ class Interp:
             tr0 = ty_range(old.w, old.s)
             # same term as Iterator::fold over the slice (xform.h_fold)
             stE.store[c] = VInt(old.w, old.s, lin=Lin.atom(("opqint", "fold", valkey(sl), lin_of(st, old).key(), op, tr0.min(), tr0.max())))
-        self.write_loc(stE, r.cell, r.path, type(it)(sl, sl.len))
+        self.write_loc(stE, r.cell, r.path, it.at(sl.len))
         stE.event("loop_done", lid)
         return [(stE, NONE)]
 
